@@ -54,6 +54,11 @@ class PassWatcher:
     def on_filter(self, *a):
         self.cur_filters += 1
 
+    def on_unannounced(self, who, d, before, after, need, got):
+        if self.bad is None:
+            names = lambda e: "|".join(n for n, b in (("MIN", 1), ("MAX", 2), ("GROUND", 4)) if e & b) or "nothing"  # noqa: E731
+            self.bad = "executing constraint type %s moved shared domain %d from %s to %s: the events %s had to be announced to its watchers, %s was" % (nx.ALG_NAME.get(int(who), who), d, before, after, names(need), names(got))
+
     def on_pass(self, kind, before, after, status, args, in_shaving):
         nf, self.cur_filters = self.cur_filters, 0
         if self.bad or status == nx.PROBLEM_INCONSISTENT:
